@@ -425,7 +425,7 @@ def blocked_goroutines(dump, running=False):
     return sorted(groups.values(), key=lambda g: (not g["frames"], "utex" not in g["wait"], -g["count"], g["wait"], g["frames"]))
 
 
-def run_mix(n, k, seed, inputs, ops=None, race=True, timeout=900):
+def run_mix(n, k, seed, inputs, ops=None, race=True, timeout=300):
     req = {"mode": "mix", "n": n, "ops_per_g": k, "seed": seed, "inputs": inputs}
     if ops:
         req["ops"] = ops
@@ -724,6 +724,8 @@ def run(tier):
         if found:
             base.update(found)
             lock_hang = True
+            if not HANGS:
+                note_hang("goroutines hammering the operations that reach %s did not finish" % mutex)
             bg = found["blocked_goroutines"]
             base["explanation"] = what + " — reproduced on the implementation: %d goroutines running %s did not finish within %d s; blocked: %s" % (
                 found["n"], found["ops"] or "all operations", found["watchdog_s"],
@@ -758,6 +760,8 @@ def run(tier):
         if found:
             base.update(found)
             lock_hang = True
+            if not HANGS:
+                note_hang("goroutines hammering the operations that reach %s did not finish" % mutex)
             bg = found["blocked_goroutines"]
             base["explanation"] = what + " — reproduced on the implementation: %d goroutines running %s did not finish within %d s; blocked: %s" % (
                 found["n"], found["ops"] or "all operations", found["watchdog_s"],
